@@ -115,6 +115,32 @@ theorem rbInsFix_rebal (S : α) (rp : List Dir) (t : Tree α) : Rebal S t (rbIns
 theorem rbInsert_rebal (S : α) (nn : Node α) (t : Tree α) : Rebal S (leafInsert nn t) (rbInsert S nn t) :=
   rbInsFix_rebal S _ _
 
+/-! ### the cases of one iteration of `insFixP` -/
+
+theorem insFixP_black (S : α) (dz dp : Dir) (rq : List Dir) (t : Tree α)
+    (h : isRed (subAt (rq.reverse ++ [dp]) t) = false) : insFixP S (dz :: dp :: rq) t = t := by
+  rw [insFixP]; simp [h]
+
+theorem insFixP_recol (S : α) (dz dp : Dir) (rq : List Dir) (t : Tree α)
+    (h1 : isRed (subAt (rq.reverse ++ [dp]) t) = true) (h2 : isRed (subAt (rq.reverse ++ [dp.flip]) t) = true) :
+    insFixP S (dz :: dp :: rq) t =
+      insFixP S rq (atPath (setCol true) rq.reverse (atPath (setCol false) (rq.reverse ++ [dp.flip])
+        (atPath (setCol false) (rq.reverse ++ [dp]) t))) := by
+  rw [insFixP]; simp [h1, h2]
+
+theorem insFixP_outer (S : α) (dp : Dir) (rq : List Dir) (t : Tree α)
+    (h1 : isRed (subAt (rq.reverse ++ [dp]) t) = true) (h2 : isRed (subAt (rq.reverse ++ [dp.flip]) t) = false) :
+    insFixP S (dp :: dp :: rq) t =
+      atPath (rotD S dp.flip) rq.reverse (atPath (setCol true) rq.reverse (atPath (setCol false) (rq.reverse ++ [dp]) t)) := by
+  rw [insFixP]; simp [h1, h2]
+
+theorem insFixP_inner (S : α) (dz dp : Dir) (rq : List Dir) (t : Tree α) (hne : dz ≠ dp)
+    (h1 : isRed (subAt (rq.reverse ++ [dp]) t) = true) (h2 : isRed (subAt (rq.reverse ++ [dp.flip]) t) = false) :
+    insFixP S (dz :: dp :: rq) t =
+      atPath (rotD S dp.flip) rq.reverse (atPath (setCol true) rq.reverse (atPath (setCol false) (rq.reverse ++ [dp])
+        (atPath (rotD S dp) (rq.reverse ++ [dp]) t))) := by
+  rw [insFixP]; simp [h1, h2, hne]
+
 /-! ### paths -/
 
 theorem subAt_append : ∀ (p q : List Dir) (t : Tree α), subAt (p ++ q) t = subAt q (subAt p t) := by
